@@ -225,6 +225,80 @@ theorem mk_fr (k : Kind) (ks : List String) (xs : List Val) (wr : Bool) (s : St)
     · right; simp [mk]; omega
     · exact Or.inl h
 
+def bodyIds : Except Err (List String × List Val) → List Nat
+  | .ok p => mutIdsL p.2
+  | .error _ => []
+
+/-- An in-place write hits exactly the object the target value is: `fill` logs `i` for a target `node i …`. -/
+theorem fill_writes (i : Nat) (k : Kind) (ks0 : List String) (xs0 : List Val) (ks : List String) (xs : List Val) (s : St) :
+    (fill (.node i k ks0 xs0) ks xs s).2.writes = i :: s.writes ∧ (fill (.node i k ks0 xs0) ks xs s).2.next = s.next := by
+  simp [fill]
+
+/-- `x = K(); …; x.<stores>`: the container is created by this computation, so the in-place stores into it — logged
+under the identity the variable `x` carries — hit an object allocated here. -/
+theorem newThenFill_fr (k : Kind) (body : St → Except Err (List String × List Val) × St) (A : List Nat)
+    (hb : ∀ s1, Fr A s1 (body s1).2 (bodyIds (body s1).1)) (s : St) :
+    Fr A s (newThenFill k body s).2 (resIds (newThenFill k body s).1) := by
+  have h := hb { next := s.next + 1, writes := s.writes }
+  simp only [newThenFill, mk, Bool.false_eq_true, ↓reduceIte]
+  cases hr : body { next := s.next + 1, writes := s.writes } with
+  | mk r s2 =>
+    rw [hr] at h
+    have hm : s.next + 1 ≤ s2.next := h.mono
+    cases r with
+    | error e =>
+      refine ⟨by simp; omega, ?_, by simp [resIds]⟩
+      intro i hi
+      rcases h.wr i hi with h' | h'
+      · exact Or.inl h'
+      · right; simp at h' ⊢; omega
+    | ok p =>
+      obtain ⟨ks, xs⟩ := p
+      simp only [fill]
+      refine ⟨by simp; omega, ?_, ?_⟩
+      · intro i hi
+        simp only [List.mem_cons] at hi
+        rcases hi with rfl | hi
+        · right; simp; omega
+        · rcases h.wr i hi with h' | h'
+          · exact Or.inl h'
+          · right; simp at h' ⊢; omega
+      · intro i hi
+        simp only [resIds] at hi
+        rcases mutIds_node_sub hi with rfl | hi
+        · right; simp; omega
+        · rcases h.out i (by simpa [bodyIds] using hi) with h' | h'
+          · exact Or.inl h'
+          · right; simp at h' ⊢; omega
+
+/-- the object `newThenFill` hands back is the one it created -/
+theorem newThenFill_id (k : Kind) (body : St → Except Err (List String × List Val) × St) (s : St)
+    (i : Nat) (k' : Kind) (ks : List String) (xs : List Val)
+    (hmono : ∀ s1, s1.next ≤ (body s1).2.next)
+    (h : (newThenFill k body s).1 = .ok (.node i k' ks xs)) :
+    i = s.next ∧ s.next < (newThenFill k body s).2.next := by
+  have hm := hmono { next := s.next + 1, writes := s.writes }
+  simp only [newThenFill, mk, Bool.false_eq_true, ↓reduceIte] at h ⊢
+  cases hr : body { next := s.next + 1, writes := s.writes } with
+  | mk r s2 =>
+    rw [hr] at h hm
+    cases r with
+    | error e => simp at h
+    | ok p =>
+      obtain ⟨ks', xs'⟩ := p
+      simp only [fill, Except.ok.injEq, Val.node.injEq] at h
+      simp only [fill]
+      simp at hm
+      exact ⟨h.1.symm, by omega⟩
+
+theorem items_ids_sub (r : Val) : ∀ i ∈ mutIdsL r.kids, i ∈ r.mutIds := by
+  intro i hi
+  cases r with
+  | node j k ks xs => exact mutIdsL_sub_node hi
+  | none => simp [Val.kids, mutIdsL] at hi
+  | int _ => simp [Val.kids, mutIdsL] at hi
+  | str _ => simp [Val.kids, mutIdsL] at hi
+
 theorem dedup_sub (xs : List Val) : ∀ v ∈ dedup xs, v ∈ xs := by
   induction xs with
   | nil => simp [dedup]
@@ -763,46 +837,59 @@ theorem filter_map_snd_sub (p : String × Val → Bool) (vals : List (String × 
   obtain ⟨q, hq, rfl⟩ := List.mem_map.mp hv
   exact mem_mutIdsL.mpr ⟨q.2, List.mem_map.mpr ⟨q, (List.mem_filter.mp hq).1, rfl⟩, h⟩
 
-theorem mkInstance_fr (k : Nat) (d : Decl) (vals : List (String × Val)) (s : St) :
-    Fr (mutIdsL (vals.map (·.2))) s (mkInstance k d vals s).2 (resIds (mkInstance k d vals s).1) := by
-  refine ⟨by simp [mkInstance], ?_, ?_⟩
-  · intro i hi
-    simp only [mkInstance, List.mem_cons] at hi
-    rcases hi with h | h | h | h | h
-    · right; simp [mkInstance]; omega
-    · right; simp [mkInstance]; omega
-    · right; simp [mkInstance]; omega
-    · right; simp [mkInstance]; omega
-    · exact Or.inl h
-  · intro i hi
-    simp only [mkInstance, resIds] at hi
-    rcases mutIds_node_sub hi with h | h
-    · right; simp [mkInstance]; omega
-    · simp only [mutIdsL, List.mem_append] at h
-      rcases h with h | h
-      · rcases mutIds_node_sub h with h | h
-        · right; simp [mkInstance]; omega
-        · exact Or.inl h
-      · left
-        split at h
-        · exact filter_map_snd_sub _ vals i h
-        · simp [mutIdsL] at h
-
 theorem mkBinding_fr (vals : List (String × Val)) (s : St) :
-    Fr (mutIdsL (vals.map (·.2))) s (mkBinding vals s).2 (resIds (mkBinding vals s).1) := by
-  refine ⟨by simp [mkBinding], ?_, ?_⟩
-  · intro i hi
-    simp only [mkBinding, List.mem_cons] at hi
-    rcases hi with h | h | h | h
-    · right; simp [mkBinding]; omega
-    · right; simp [mkBinding]; omega
-    · right; simp [mkBinding]; omega
-    · exact Or.inl h
-  · intro i hi
-    simp only [mkBinding, resIds] at hi
-    rcases mutIds_node_sub hi with h | h
-    · right; simp [mkBinding]; omega
-    · exact Or.inl h
+    Fr (mutIdsL (vals.map (·.2))) s (mkBinding vals s).2 (resIds (mkBinding vals s).1) :=
+  mk_fr .dict _ _ false s
+
+theorem parseInto_fr (rec : Ty → Val → Comp) (ro : ROpts) (A : List Nat) (d : Decl) (ks : List String) (xs : List Val)
+    (hx : ∀ v ∈ xs, ∀ i ∈ v.mutIds, i ∈ A)
+    (hrec : ∀ t v, (∀ i ∈ v.mutIds, i ∈ A) → ∀ s, Fr A s (rec t v s).2 (resIds (rec t v s).1))
+    (hro : ∀ i ∈ ro.opqIds, i ∈ A)
+    (hB : ∀ f ∈ d.fields, ∀ i ∈ f.dflt.opqIds, i ∈ A) (s : St) :
+    Fr A s (parseInto rec ro d ks xs s).2 (resIds (parseInto rec ro d ks xs s).1) := by
+  unfold parseInto
+  apply newThenFill_fr
+  intro s1
+  have h := parseData_fr rec ro A d ks xs hx hrec hro hB s1
+  cases hr : parseData rec ro d ks xs s1 with
+  | mk r s2 =>
+    rw [hr] at h
+    cases r with
+    | error e => exact h.err
+    | ok vals => simpa [bodyIds, resIdsKV] using h
+
+theorem parseInto_id (rec : Ty → Val → Comp) (ro : ROpts) (A : List Nat) (d : Decl) (ks : List String) (xs : List Val)
+    (hx : ∀ v ∈ xs, ∀ i ∈ v.mutIds, i ∈ A)
+    (hrec : ∀ t v, (∀ i ∈ v.mutIds, i ∈ A) → ∀ s, Fr A s (rec t v s).2 (resIds (rec t v s).1))
+    (hro : ∀ i ∈ ro.opqIds, i ∈ A)
+    (hB : ∀ f ∈ d.fields, ∀ i ∈ f.dflt.opqIds, i ∈ A) (s : St)
+    (i : Nat) (k' : Kind) (ks' : List String) (xs' : List Val)
+    (h : (parseInto rec ro d ks xs s).1 = .ok (.node i k' ks' xs')) :
+    i = s.next ∧ s.next < (parseInto rec ro d ks xs s).2.next := by
+  unfold parseInto at h ⊢
+  refine newThenFill_id .dict _ s i k' ks' xs' ?_ h
+  intro s1
+  have hmn := (parseData_fr rec ro A d ks xs hx hrec hro hB s1).mono
+  cases hpd : parseData rec ro d ks xs s1 with
+  | mk r' s' =>
+    rw [hpd] at hmn
+    cases r' <;> simpa using hmn
+
+theorem itemsOf_ids (v : Val) : ∀ i ∈ mutIdsL (itemsOf v).2, i ∈ v.mutIds := by
+  intro i hi
+  cases v with
+  | node j k ks xs => exact mutIdsL_sub_node hi
+  | none => simp [itemsOf, mutIdsL] at hi
+  | int _ => simp [itemsOf, mutIdsL] at hi
+  | str _ => simp [itemsOf, mutIdsL] at hi
+
+theorem zip_filter_snd_sub (p : String × Val → Bool) (ks : List String) (xs : List Val) :
+    ∀ i ∈ mutIdsL (((ks.zip xs).filter p).map (·.2)), i ∈ mutIdsL xs := by
+  intro i hi
+  obtain ⟨v, hv, h⟩ := mem_mutIdsL.mp hi
+  obtain ⟨q, hq, rfl⟩ := List.mem_map.mp hv
+  have hz : q ∈ ks.zip xs := (List.mem_filter.mp hq).1
+  exact mem_mutIdsL.mpr ⟨q.2, (List.of_mem_zip hz).2, h⟩
 
 theorem leak_of_field {E : Env} {k : Nat} {d : Decl} (hk : E[k]? = some d) :
     ∀ f ∈ d.fields, ∀ i ∈ f.dflt.opqIds, i ∈ E.leak := by
@@ -813,6 +900,8 @@ theorem leak_of_field {E : Env} {k : Nat} {d : Decl} (hk : E[k]? = some d) :
   simp only [Env.dfltVals, Decl.dfltVals, List.mem_flatMap]
   exact ⟨d, hd, f, hf, hv⟩
 
+/-- the objects an instance creation writes in place — the call's kwargs, the new instance, its `__dict__`, the parser's
+result dict — are reached through the variables that hold them; every one of them was created by this very call -/
 theorem initWith_fr (rec : Ty → Val → Comp) (ro : ROpts) (A : List Nat) (E : Env) (k : Nat) (ks : List String) (xs : List Val)
     (hx : ∀ v ∈ xs, ∀ i ∈ v.mutIds, i ∈ A)
     (hrec : ∀ t v, (∀ i ∈ v.mutIds, i ∈ A) → ∀ s, Fr A s (rec t v s).2 (resIds (rec t v s).1))
@@ -826,16 +915,68 @@ theorem initWith_fr (rec : Ty → Val → Comp) (ro : ROpts) (A : List Nat) (E :
     simp only
     split
     · exact Fr.refl (by simp [resIds])
-    · have h1 := parseData_fr rec ro A d ks xs hx hrec hro (fun f hf i hi => hleak i (leak_of_field hk f hf i hi)) s
-      cases hr : parseData rec ro d ks xs s with
-      | mk r s1 =>
-        rw [hr] at h1
+    · -- kwargs, inst, inst.__dict__ are plain allocations (+ the stores into kwargs)
+      simp only [newThenFill, mk, fill, itemsOf, Bool.false_eq_true, ↓reduceIte]
+      have hp := parseInto_fr rec ro A d ks xs hx hrec hro
+        (fun f hf i hi => hleak i (leak_of_field hk f hf i hi))
+        { next := s.next + 1 + 1 + 1, writes := s.next :: s.writes }
+      cases hr : parseInto rec ro d ks xs { next := s.next + 1 + 1 + 1, writes := s.next :: s.writes } with
+      | mk r s4 =>
+        rw [hr] at hp
+        have hm : s.next + 3 ≤ s4.next := by have := hp.mono; simp at this; omega
+        have hwr : ∀ i ∈ s4.writes, i ∈ s.writes ∨ (s.next ≤ i ∧ i < s4.next) := by
+          intro i hi
+          rcases hp.wr i hi with h | h
+          · simp only [List.mem_cons] at h
+            rcases h with rfl | h
+            · right; omega
+            · exact Or.inl h
+          · right; simp at h; omega
         cases r with
-        | error e => exact h1.err
-        | ok vals =>
-          simp only
-          have h2 := mkInstance_fr k d vals s1
-          exact h1.comp (h2.weaken (fun i hi => List.mem_append_right _ (by simpa [resIdsKV] using hi)) (fun _ h => h))
+        | error e => exact ⟨by simp; omega, by simpa using hwr, by simp [resIds]⟩
+        | ok values =>
+          have hvals : ∀ i ∈ values.mutIds, i ∈ A ∨ (s.next ≤ i ∧ i < s4.next) := by
+            intro i hi
+            rcases hp.out i (by simpa [resIds] using hi) with h | h
+            · exact Or.inl h
+            · right; simp at h; omega
+          cases values with
+          | none => exact ⟨by simp; omega, by simpa using hwr, by simp [resIds]⟩
+          | int _ => exact ⟨by simp; omega, by simpa using hwr, by simp [resIds]⟩
+          | str _ => exact ⟨by simp; omega, by simpa using hwr, by simp [resIds]⟩
+          | node vi vk vks vxs =>
+            simp only
+            have hvx : ∀ i ∈ mutIdsL vxs, i ∈ A ∨ (s.next ≤ i ∧ i < s4.next) :=
+              fun i hi => hvals i (mutIdsL_sub_node hi)
+            refine ⟨by simp; omega, ?_, ?_⟩
+            · intro i hi
+              simp only [List.mem_cons] at hi
+              rcases hi with rfl | rfl | rfl | hi
+              · right; simp; omega
+              · right; simp; omega
+              · -- `values.pop(key)`: `values` is the dict `parseInto` created in this call
+                have hid := parseInto_id rec ro A d ks xs hx hrec hro
+                  (fun f hf i hi => hleak i (leak_of_field hk f hf i hi))
+                  { next := s.next + 1 + 1 + 1, writes := s.next :: s.writes } i vk vks vxs (by rw [hr])
+                rw [hr] at hid
+                right; simp at hid ⊢; omega
+              · exact hwr i hi
+            · intro i hi
+              simp only [resIds] at hi
+              rcases mutIds_node_sub hi with rfl | hi
+              · right; simp; omega
+              · simp only [mutIdsL, List.mem_append] at hi
+                rcases hi with hi | hi
+                · rcases mutIds_node_sub hi with rfl | hi
+                  · right; simp; omega
+                  · rcases hvx i hi with h | h
+                    · exact Or.inl h
+                    · right; simp; omega
+                · split at hi
+                  · rcases hvx i (zip_filter_snd_sub _ vks vxs i hi) with h | h
+                    · exact Or.inl h
+                    · right; simp; omega
+                  · simp [mutIdsL] at hi
 
 /-! ### the transformer -/
 
@@ -850,30 +991,42 @@ theorem convInt_ids (o : Opts) (v : Val) : resIds (convInt o v) = [] := by
       · split <;> simp [resIds]
   · simp [resIds]
 
-/-- `result = []` followed by filling it element by element -/
-theorem rebuild_fr (A B : List Nat) (f : Val → Comp) (items : List Val) (s1 : St)
+/-- the body of a container rebuild: convert every item -/
+theorem mapBody_fr (A B : List Nat) (f : Val → Comp) (items : List Val) (ks : List String)
     (hitems : ∀ i ∈ mutIdsL items, i ∈ A) (hB : ∀ i ∈ B, i ∈ A)
-    (hf : ∀ v ∈ items, ∀ s, Fr (v.mutIds ++ B) s (f v s).2 (resIds (f v s).1)) :
-    Fr A s1 (mapC f items { next := s1.next + 1, writes := s1.next :: s1.writes }).2
-      (s1.next :: resIdsL (mapC f items { next := s1.next + 1, writes := s1.next :: s1.writes }).1) := by
-  have ha : Fr A s1 { next := s1.next + 1, writes := s1.next :: s1.writes } [s1.next] :=
-    ⟨by simp, by intro i hi; simp at hi; rcases hi with h | h; right; simp; omega; exact Or.inl h,
-     by intro i hi; simp at hi; right; simp; omega⟩
-  have hm := (mapC_fr f B items hf { next := s1.next + 1, writes := s1.next :: s1.writes }).weaken
-    (A' := A) (fun i hi => by rcases List.mem_append.mp hi with h | h; exact hitems i h; exact hB i h) (fun _ h => h)
-  exact ha.seq hm
+    (hf : ∀ v ∈ items, ∀ s, Fr (v.mutIds ++ B) s (f v s).2 (resIds (f v s).1)) (s2 : St) :
+    Fr A s2 (match mapC f items s2 with
+        | (.error e, s3) => ((.error e, s3) : Except Err (List String × List Val) × St)
+        | (.ok items', s3) => (.ok (ks, items'), s3)).2
+      (bodyIds (match mapC f items s2 with
+        | (.error e, s3) => ((.error e, s3) : Except Err (List String × List Val) × St)
+        | (.ok items', s3) => (.ok (ks, items'), s3)).1) := by
+  have hm := (mapC_fr f B items hf s2).weaken (A' := A)
+    (fun i hi => by rcases List.mem_append.mp hi with h | h; exact hitems i h; exact hB i h) (fun _ h => h)
+  cases hr : mapC f items s2 with
+  | mk r s3 =>
+    rw [hr] at hm
+    cases r with
+    | error e => exact hm.err
+    | ok items' => simpa [bodyIds, resIdsL] using hm
 
-theorem rebuildZ_fr (A B : List Nat) (f : Ty → Val → Comp) (ts : List Ty) (items : List Val) (s1 : St)
+theorem zipBody_fr (A B : List Nat) (f : Ty → Val → Comp) (ts : List Ty) (items : List Val)
     (hitems : ∀ i ∈ mutIdsL items, i ∈ A) (hB : ∀ i ∈ B, i ∈ A)
-    (hf : ∀ t, ∀ v ∈ items, ∀ s, Fr (v.mutIds ++ B) s (f t v s).2 (resIds (f t v s).1)) :
-    Fr A s1 (zipC f ts items { next := s1.next + 1, writes := s1.next :: s1.writes }).2
-      (s1.next :: resIdsL (zipC f ts items { next := s1.next + 1, writes := s1.next :: s1.writes }).1) := by
-  have ha : Fr A s1 { next := s1.next + 1, writes := s1.next :: s1.writes } [s1.next] :=
-    ⟨by simp, by intro i hi; simp at hi; rcases hi with h | h; right; simp; omega; exact Or.inl h,
-     by intro i hi; simp at hi; right; simp; omega⟩
-  have hm := (zipC_fr f B ts items hf { next := s1.next + 1, writes := s1.next :: s1.writes }).weaken
-    (A' := A) (fun i hi => by rcases List.mem_append.mp hi with h | h; exact hitems i h; exact hB i h) (fun _ h => h)
-  exact ha.seq hm
+    (hf : ∀ t, ∀ v ∈ items, ∀ s, Fr (v.mutIds ++ B) s (f t v s).2 (resIds (f t v s).1)) (s2 : St) :
+    Fr A s2 (match zipC f ts items s2 with
+        | (.error e, s3) => ((.error e, s3) : Except Err (List String × List Val) × St)
+        | (.ok items', s3) => (.ok ([], items'), s3)).2
+      (bodyIds (match zipC f ts items s2 with
+        | (.error e, s3) => ((.error e, s3) : Except Err (List String × List Val) × St)
+        | (.ok items', s3) => (.ok ([], items'), s3)).1) := by
+  have hm := (zipC_fr f B ts items hf s2).weaken (A' := A)
+    (fun i hi => by rcases List.mem_append.mp hi with h | h; exact hitems i h; exact hB i h) (fun _ h => h)
+  cases hr : zipC f ts items s2 with
+  | mk r s3 =>
+    rw [hr] at hm
+    cases r with
+    | error e => exact hm.err
+    | ok items' => simpa [bodyIds, resIdsL] using hm
 
 theorem conv_fr (E : Env) (A : List Nat) (hleak : ∀ i ∈ E.leak, i ∈ A) :
     ∀ (fuel : Nat) (o : Opts) (ty : Ty) (v : Val), (∀ i ∈ v.mutIds, i ∈ A) → ∀ s,
@@ -911,25 +1064,23 @@ theorem conv_fr (E : Env) (A : List Nat) (hleak : ∀ i ∈ E.leak, i ∈ A) :
             simp only
             have hit : ∀ i ∈ mutIdsL items, i ∈ A ++ resIds (Except.ok (Val.node j k' ks items)) :=
               fun i hi => List.mem_append_right _ (by simp only [resIds]; exact mutIdsL_sub_node hi)
-            have h2 := rebuild_fr (A ++ resIds (Except.ok (Val.node j k' ks items))) E.leak (conv E o fuel t) items s1 hit
-              (fun i hi => List.mem_append_left _ (hleak i hi)) (fun w _ s => ihB o t w s)
+            have h2 := newThenFill_fr .list _ (A ++ resIds (Except.ok (Val.node j k' ks items)))
+              (mapBody_fr (A ++ resIds (Except.ok (Val.node j k' ks items))) E.leak (conv E o fuel t) items [] hit
+                (fun i hi => List.mem_append_left _ (hleak i hi)) (fun w _ s => ihB o t w s)) s1
             have h12 := h1.comp h2
-            cases hm : mapC (conv E o fuel t) items { next := s1.next + 1, writes := s1.next :: s1.writes } with
+            cases hm : newThenFill .list (fun s2 => match mapC (conv E o fuel t) items s2 with
+                | (.error e, s3) => (.error e, s3)
+                | (.ok items', s3) => (.ok ([], items'), s3)) s1 with
             | mk r3 s3 =>
               rw [hm] at h12
               cases r3 with
               | error e => exact h12.err
-              | ok items' =>
+              | ok r =>
                 simp only
                 split
-                · refine h12.weaken (fun _ h => h) ?_
-                  intro i hi
-                  simp only [resIds] at hi
-                  rcases mutIds_node_sub hi with h | h
-                  · simp [h]
-                  · simp [resIdsL, h]
-                · have h3 := mkSeq_fr k items' false s3
-                  exact h12.comp (h3.weaken (fun i hi => List.mem_append_right _ (by simp [resIdsL, hi])) (fun _ h => h))
+                · exact h12
+                · have h3 := mkSeq_fr k r.kids false s3
+                  exact h12.comp (h3.weaken (fun i hi => List.mem_append_right _ (by simpa [resIds] using items_ids_sub r i hi)) (fun _ h => h))
     | map t =>
       simp only [conv]
       have h1 := (convBare_fr o .dict v s).weaken hv (fun _ h => h)
@@ -947,22 +1098,10 @@ theorem conv_fr (E : Env) (A : List Nat) (hleak : ∀ i ∈ E.leak, i ∈ A) :
             simp only
             have hit : ∀ i ∈ mutIdsL items, i ∈ A ++ resIds (Except.ok (Val.node j k' ks items)) :=
               fun i hi => List.mem_append_right _ (by simp only [resIds]; exact mutIdsL_sub_node hi)
-            have h2 := rebuild_fr (A ++ resIds (Except.ok (Val.node j k' ks items))) E.leak (conv E o fuel t) items s1 hit
-              (fun i hi => List.mem_append_left _ (hleak i hi)) (fun w _ s => ihB o t w s)
-            have h12 := h1.comp h2
-            cases hm : mapC (conv E o fuel t) items { next := s1.next + 1, writes := s1.next :: s1.writes } with
-            | mk r3 s3 =>
-              rw [hm] at h12
-              cases r3 with
-              | error e => exact h12.err
-              | ok items' =>
-                simp only
-                refine h12.weaken (fun _ h => h) ?_
-                intro i hi
-                simp only [resIds] at hi
-                rcases mutIds_node_sub hi with h | h
-                · simp [h]
-                · simp [resIdsL, h]
+            have h2 := newThenFill_fr .dict _ (A ++ resIds (Except.ok (Val.node j k' ks items)))
+              (mapBody_fr (A ++ resIds (Except.ok (Val.node j k' ks items))) E.leak (conv E o fuel t) items ks hit
+                (fun i hi => List.mem_append_left _ (hleak i hi)) (fun w _ s => ihB o t w s)) s1
+            exact h1.comp h2
     | tup ts =>
       simp only [conv]
       split
@@ -982,18 +1121,21 @@ theorem conv_fr (E : Env) (A : List Nat) (hleak : ∀ i ∈ E.leak, i ∈ A) :
               simp only
               have hit : ∀ i ∈ mutIdsL items, i ∈ A ++ resIds (Except.ok (Val.node j k' ks items)) :=
                 fun i hi => List.mem_append_right _ (by simp only [resIds]; exact mutIdsL_sub_node hi)
-              have h2 := rebuildZ_fr (A ++ resIds (Except.ok (Val.node j k' ks items))) E.leak (conv E o fuel) ts items s1 hit
-                (fun i hi => List.mem_append_left _ (hleak i hi)) (fun t w _ s => ihB o t w s)
+              have h2 := newThenFill_fr .list _ (A ++ resIds (Except.ok (Val.node j k' ks items)))
+                (zipBody_fr (A ++ resIds (Except.ok (Val.node j k' ks items))) E.leak (conv E o fuel) ts items hit
+                  (fun i hi => List.mem_append_left _ (hleak i hi)) (fun t w _ s => ihB o t w s)) s1
               have h12 := h1.comp h2
-              cases hm : zipC (conv E o fuel) ts items { next := s1.next + 1, writes := s1.next :: s1.writes } with
+              cases hm : newThenFill .list (fun s2 => match zipC (conv E o fuel) ts items s2 with
+                  | (.error e, s3) => (.error e, s3)
+                  | (.ok items', s3) => (.ok ([], items'), s3)) s1 with
               | mk r3 s3 =>
                 rw [hm] at h12
                 cases r3 with
                 | error e => exact h12.err
-                | ok items' =>
+                | ok r =>
                   simp only
-                  have h3 := mk_fr .tuple [] items' false s3
-                  exact h12.comp (h3.weaken (fun i hi => List.mem_append_right _ (by simp [resIdsL, hi])) (fun _ h => h))
+                  have h3 := mk_fr .tuple [] r.kids false s3
+                  exact h12.comp (h3.weaken (fun i hi => List.mem_append_right _ (by simpa [resIds] using items_ids_sub r i hi)) (fun _ h => h))
     | con t lg mx mn =>
       simp only [conv]
       have h1 := ihA o t v hv s
@@ -1066,6 +1208,13 @@ theorem conv_fr (E : Env) (A : List Nat) (hleak : ∀ i ∈ E.leak, i ∈ A) :
 
 /-! ### one parse through the public API -/
 
+theorem zip_snd_ids (ks : List String) (xs : List Val) :
+    ∀ i ∈ mutIdsL ((ks.zip xs).map (·.2)), i ∈ mutIdsL xs := by
+  intro i hi
+  obtain ⟨v, hv, h⟩ := mem_mutIdsL.mp hi
+  obtain ⟨q, hq, rfl⟩ := List.mem_map.mp hv
+  exact mem_mutIdsL.mpr ⟨q.2, (List.of_mem_zip hq).2, h⟩
+
 theorem callWith_fr (optsOf : List (Option Opts) → Nat → Opts) (ro : ROpts) (E : Env) (A : List Nat)
     (hleak : ∀ i ∈ E.leak, i ∈ A) (hro : ∀ i ∈ ro.opqIds, i ∈ A) (target wrapper : Nat) (ks : List String) (xs : List Val)
     (hx : ∀ v ∈ xs, ∀ i ∈ v.mutIds, i ∈ A) (s : St) :
@@ -1076,33 +1225,34 @@ theorem callWith_fr (optsOf : List (Option Opts) → Nat → Opts) (ro : ROpts) 
   | some d =>
     simp only
     split
-    · have h1 := parseData_fr (conv E (optsOf d.wrappers wrapper) fuelDefault) {} A { d with dfs := false } ks xs hx
+    · have h1 := parseInto_fr (conv E (optsOf d.wrappers wrapper) fuelDefault) {} A { d with dfs := false } ks xs hx
         (fun t w hw s => conv_fr E A hleak fuelDefault _ t w hw s) (by simp [ROpts.opqIds])
         (fun f hf i hi => hleak i (leak_of_field hk f hf i hi)) s
-      cases hr : parseData (conv E (optsOf d.wrappers wrapper) fuelDefault) {} { d with dfs := false } ks xs s with
+      cases hr : parseInto (conv E (optsOf d.wrappers wrapper) fuelDefault) {} { d with dfs := false } ks xs s with
       | mk r s1 =>
         rw [hr] at h1
         cases r with
         | error e => exact h1.err
-        | ok vals =>
+        | ok pk =>
           simp only
-          have hb : ∀ s2, Fr (A ++ resIdsKV (Except.ok vals)) s2 (mkBinding vals s2).2 (resIds (mkBinding vals s2).1) :=
-            fun s2 => (mkBinding_fr vals s2).weaken
-              (fun i hi => List.mem_append_right _ (by simpa [resIdsKV] using hi)) (fun _ h => h)
+          have hpk : ∀ i ∈ mutIdsL (((itemsOf pk).1.zip (itemsOf pk).2).map (·.2)), i ∈ A ++ resIds (Except.ok pk) :=
+            fun i hi => List.mem_append_right _ (by
+              simp only [resIds]; exact itemsOf_ids pk i (zip_snd_ids _ _ i hi))
+          have hb : ∀ s2, Fr (A ++ resIds (Except.ok pk)) s2 (mkBinding ((itemsOf pk).1.zip (itemsOf pk).2) s2).2
+              (resIds (mkBinding ((itemsOf pk).1.zip (itemsOf pk).2) s2).1) :=
+            fun s2 => (mkBinding_fr _ s2).weaken hpk (fun _ h => h)
           cases hret : d.ret with
           | none => exact h1.comp (hb s1)
           | some rt =>
             obtain ⟨fname, ty⟩ := rt
             simp only
-            cases hl : lookupKV fname (vals.map (·.1)) (vals.map (·.2)) with
+            cases hl : lookupKV fname (((itemsOf pk).1.zip (itemsOf pk).2).map (·.1)) (((itemsOf pk).1.zip (itemsOf pk).2).map (·.2)) with
             | none => exact h1.comp (hb s1)
             | some v =>
               simp only
-              have hv : ∀ i ∈ v.mutIds, i ∈ A ++ resIdsKV (Except.ok vals) := fun i hi =>
-                List.mem_append_right _ (by
-                  simp only [resIdsKV]
-                  exact mem_mutIdsL.mpr ⟨v, lookupKV_mem _ _ _ _ hl, hi⟩)
-              have h2 := conv_fr E (A ++ resIdsKV (Except.ok vals)) (fun i hi => List.mem_append_left _ (hleak i hi))
+              have hv : ∀ i ∈ v.mutIds, i ∈ A ++ resIds (Except.ok pk) := fun i hi =>
+                hpk i (mem_mutIdsL.mpr ⟨v, lookupKV_mem _ _ _ _ hl, hi⟩)
+              have h2 := conv_fr E (A ++ resIds (Except.ok pk)) (fun i hi => List.mem_append_left _ (hleak i hi))
                 fuelDefault (optsOf d.wrappers wrapper) ty v hv s1
               cases hc : conv E (optsOf d.wrappers wrapper) fuelDefault ty v s1 with
               | mk r2 s2 =>
@@ -1111,7 +1261,7 @@ theorem callWith_fr (optsOf : List (Option Opts) → Nat → Opts) (ro : ROpts) 
                 | error e => exact (h1.comp h2).err
                 | ok _ =>
                   simp only
-                  have h12 : Fr A s s2 (resIdsKV (Except.ok vals)) :=
+                  have h12 : Fr A s s2 (resIds (Except.ok pk)) :=
                     (h1.carry h2.err).weaken (fun _ h => h) (fun i hi => by simpa using hi)
                   exact h12.comp (hb s2)
     · exact initWith_fr (conv E {} fuelDefault) ro A E target ks xs hx
@@ -1402,11 +1552,11 @@ theorem schemaCopy_fr (v : Val) (s : St) :
   unfold schemaCopy
   split
   · rename_i j k ks a aks avs xs s0
-    refine ⟨by simp, ?_, ?_⟩
+    simp only [mk, fill, Bool.false_eq_true, ↓reduceIte]
+    refine ⟨by simp; omega, ?_, ?_⟩
     · intro i hi
       simp only [List.mem_cons] at hi
-      rcases hi with h | h | h
-      · right; simp; omega
+      rcases hi with rfl | h
       · right; simp; omega
       · exact Or.inl h
     · intro i hi
